@@ -130,6 +130,12 @@ def run_validator(c):
                 elif via == "set":
                     setattr(obj, name, val)
                     r = "ok"
+                elif via == "setq":           # quiet assignment: same validation, no notification
+                    obj.trait_setq(**{name: val})
+                    r = "ok"
+                elif via == "qset":
+                    obj.trait_set(trait_change_notify=False, **{name: val})
+                    r = "ok"
                 else:
                     obj.trait_set(**{name: val})
                     r = "ok"
@@ -615,7 +621,7 @@ def generate(rng, n, excs):
                 if name in ("de", "dn") and rng.random() < 0.4:
                     steps.append([name, None, "get"])      # first read: materialises the dynamic default
                 else:
-                    steps.append([name, rng.choice(vals[name]), rng.choice(["set", "set", "trait_set"])])
+                    steps.append([name, rng.choice(vals[name]), rng.choice(["set", "set", "set", "trait_set", "trait_set", "setq", "qset"])])
             cand = [j for j, s in enumerate(steps) if s[0] in ("e", "n", "en", "t", "de", "dn") and s[2] != "get"]
             if not cand:
                 continue
